@@ -96,8 +96,8 @@ DEFAULT_OPTS = {"dont_dis": [], "split_dis": [], "lines_wd": None, "blocs_wd": N
 # bounds: per tier, per arch: family -> list of (length, max branch tokens)
 BOUNDS = {
     "quick": {
-        "x86_32": {"start0": [(5, 1)],
-                   "default": [(1, 1), (2, 2), (3, 2), (4, 1)],
+        "x86_32": {"start0": [],
+                   "default": [(1, 1), (2, 2), (3, 2), (4, 1), (5, 0)],
                    "single": [(1, 1), (2, 2), (3, 1)],
                    "cross": [(1, 1), (2, 0)]},
     },
